@@ -23,8 +23,25 @@ def build(repo, findings):
         C('C10 exec-own-redirections-do-persist', 'old(context).own@.submap_of(final(context).shell.persistent@)'),
     ])
     u.add(f)
+    # the head of execute: a redirection-only exec persists its redirections wherever it runs (also in a subshell: `( exec 3>f; .. )`)
+    for fld in ('name_for_argv0: Option<String>,', 'empty_environment: bool,', 'exec_as_login: bool,', 'args: Vec<String>,'):
+        src.require_text(r'\n\s*' + fld.replace('<', r'\<').replace('>', r'\>'), 'field ExecCommand.' + fld)
+    fn = 'exec_head'
+    h = src.slice('execute', r'^\s*(?:if|let|//)\b', r'^\s*\}$(?=\n\n\s*let mut argv0 = )',
+                  'fn exec_head(self_: &ExecCommand, context: &mut ExecutionContext) -> Result<ExecutionResult, Error>', fn)
+    h.r1()
+    h.resub(r'\bself\.', 'self_.', 'R6', 'slice wrapper: self -> self_', count=None)
+    h.resub(r'let fds: Vec<_> = context\.iter_fds\(\)\.collect\(\);', 'let fds = context.collect_fds();', 'R14', 'iter_fds().collect() -> stub returning the merged descriptor view', count=None)
+    h.resub(r'context\.shell\.replace_open_files\(fds\.into_iter\(\)\)', 'context.shell.replace_open_files(fds)', 'R14', 'into_iter() dropped (the stub takes the collected view)', count=None)
+    h.resub(r'let cmd_cmd = crate::command::CommandCommand \{.*?\};\s*return cmd_cmd\.execute\(context\)\.await;', 'return vx_delegate_to_command(self_, context);', 'R14', 'delegation to the `command` builtin -> stub with an abstract result', count=None, flags=__import__('re').S | __import__('re').M)
+    h.resub(r'\n\}$', '\n    Ok(vx_goes_on_to_replace_the_process())\n}', 'R6', 'wrapper epilogue: the function goes on to replace the process', count=1)
+    h.sig(fn, ret='res', requires=[C('aux own-redirections-are-in-the-layer', 'old(context).own@.submap_of(old(context).layer@)')], ensures=[
+        C('C10 exec-without-a-command-persists-its-redirections-wherever-it-runs kf=C10:exec-persists-enclosing-temporary-redirects',
+          'self_.args@.len() == 0 ==> res is Ok && old(context).own@.submap_of(final(context).shell.persistent@) && ({{KF:C10:exec-persists-enclosing-temporary-redirects}} || final(context).shell.persistent@ == old(context).shell.persistent@.union_prefer_right(old(context).own@))'),
+    ])
+    u.add(h)
     u.raw(FOOTER)
     u.assume('external_body', 'ExecutionContext::iter_fds (merged view: layer over the table of the shell) and Shell::replace_open_files are stubs read off their bodies; which part of the layer comes from the own redirections of exec is ghost (`own`)')
-    u.assume('stub', 'the exec-with-command path (process replacement) is NOT covered')
-    u.expected_min_fns = 1
+    u.assume('stub', 'the exec-with-command path (process replacement, delegation to `command` in a subshell) is NOT covered')
+    u.expected_min_fns = 2
     return u
